@@ -88,6 +88,9 @@ def fire(h, ev, i):
         h.on_connection_lost(p)
     elif ev == 'conn_failed':
         h.on_connection_failed(P.get('peer', PEER), 'Connection refused')
+    elif ev == 'conn_failed_nonutf8':
+        # an OS error text in another locale, as Python hands it over (surrogateescape) - and plain non-ASCII text
+        h.on_connection_failed(P.get('peer', PEER), b'Connexion refus\xe9e'.decode('utf-8', 'surrogateescape') + ' \u00e9\u4e2d')
     elif ev == 'established':
         h.on_established(P.get('peer', PEER), 1.0)
     else:
@@ -200,6 +203,10 @@ def obligations(tier, seed):
                       {'events': ['send_open', 'open', 'keepalive_first', 'keepalive', 'update'],
                        'after': ['keepalive_first', 'keepalive'], 'mode': 'restart', 'rotate': rotate}, covers=['restarted'],
                       cap=280 if quick else 800))
+    for rotate in (False, True):
+        out.append(ob('C20/restart/non-utf8-text/rotate=%s' % rotate, 'ob_log',
+                      {'events': ['update', 'conn_failed_nonutf8', 'update', 'conn_failed_nonutf8'], 'after': ['update', 'keepalive'],
+                       'mode': 'restart', 'rotate': rotate}, covers=['restarted'], cap=280 if quick else 800))
     for pname, evs in patterns.items():
         for aname, aft in afters.items():
             if quick and aname == 'one' and pname != 'updates':
